@@ -119,22 +119,83 @@ def mk_proc_from_parts(parts):
     models = {}
     for u in parts["ins"] + parts["inouts"] + [f[0] for f in parts["outs"]] + [f[0] for f in parts["ints"]]:
         models[u[0]] = mk_unit(u)
-    fu = lambda f: units.FuncUnit(models[f[0][0]], [models[p] for p in f[1]])
-    return pu.ProcessorDesc([models[u[0]] for u in parts["ins"]], [fu(f) for f in parts["outs"]],
-                            [models[u[0]] for u in parts["inouts"]], [fu(f) for f in parts["ints"]])
+    # every argument is an Iterable: lists, tuples and generators in turn (chosen by the sizes, so deterministic)
+    forms = ["list", "tuple", "generator"]
+    k0 = len(parts["ints"]) + 2 * len(parts["outs"]) + len(parts["ins"])
+    fu = lambda f: units.FuncUnit(models[f[0][0]], shaped([models[p] for p in f[1]], forms[(k0 + len(f[1])) % 3]))
+    return pu.ProcessorDesc(shaped([models[u[0]] for u in parts["ins"]], forms[k0 % 3]),
+                            shaped([fu(f) for f in parts["outs"]], forms[(k0 + 1) % 3]),
+                            shaped([models[u[0]] for u in parts["inouts"]], forms[(k0 + 2) % 3]),
+                            shaped([fu(f) for f in parts["ints"]], forms[(k0 // 3) % 3]))
 
 
 def mk_hwprog(prog):
+    """the program as HwInstruction objects; in every second program, instructions that are equal (same sources,
+    destination, capability) are ONE object occurring several times (sharing inside the argument: anything keyed
+    by object identity or by instruction equality instead of by position then confuses them)"""
     pd = M("program_defs")
-    return [pd.HwInstruction(s if not isinstance(s, list) else list(s), d, c) for s, d, c in prog]
+    out, seen = [], {}
+    share = len(prog) % 2 == 0
+    for s, d, c in prog:
+        ins = pd.HwInstruction(s if not isinstance(s, list) else list(s), d, c)
+        if share:
+            try:
+                ins = seen.setdefault((tuple(ins.sources), ins.destination, ins.categ), ins)
+            except Exception:  # noqa: BLE001
+                pass
+        out.append(ins)
+    return out
+
+
+class chatty_logging:
+    """the root logger at DEBUG with silent handlers for the duration of a call (every third call, chosen by `k`):
+    code that computes log arguments only when a level is enabled runs those computations"""
+
+    def __init__(self, k):
+        self.on = k % 3 == 0
+
+    def __enter__(self):
+        if self.on:
+            root = logging.getLogger()
+            self.old = (root.level, root.handlers[:])
+            root.handlers[:] = [logging.NullHandler()]
+            root.setLevel(logging.DEBUG)
+            logging.disable(logging.NOTSET)
+
+    def __exit__(self, *a):
+        if self.on:
+            root = logging.getLogger()
+            root.setLevel(self.old[0])
+            root.handlers[:] = self.old[1]
+            logging.disable(logging.CRITICAL)
+        return False
 
 
 # ---------------------------------------------------------------- components
+_SIM_KEEP = []
+
+
 def run_sim_obj(proc, hwprog):
-    """returns (tag, payload): Done/Stalled + canonical diagram, or Crash/Timeout"""
+    """returns (tag, payload): Done/Stalled + canonical diagram, or Crash/Timeout.
+    History: the arguments and results of the last runs stay alive (weakly keyed or identity-keyed hidden state
+    stays populated), and one run in four is preceded by a run of the REVERSED program on the same processor
+    object (state left behind by an earlier, different simulation)."""
     ss = M("sim_services")
+    spec = ss.HwSpec(proc)          # ONE hardware object for the preceding run and the run under test
     try:
-        res = with_timeout(lambda: ss.simulate(hwprog, ss.HwSpec(proc)))
+        prog_l = list(hwprog) if isinstance(hwprog, (list, tuple)) else []
+        if prog_l and (len(prog_l) + sum(len(getattr(i, "sources", ())) for i in prog_l)) % 4 == 0:
+            try:
+                _SIM_KEEP.append(with_timeout(lambda: ss.simulate(prog_l[::-1], spec)))
+            except BaseException as e:  # noqa: BLE001
+                _SIM_KEEP.append(e)
+    except Exception:  # noqa: BLE001
+        pass
+    _SIM_KEEP.append((spec, hwprog))
+    del _SIM_KEEP[:-30]
+    try:
+        with chatty_logging(len(_SIM_KEEP[-1][1]) if isinstance(_SIM_KEEP[-1][1], list) else 1):
+            res = with_timeout(lambda: ss.simulate(hwprog, spec))
         return [Sym("Done"), canon_diag(res)]
     except ss.StallError as e:
         return [Sym("Stalled"), canon_diag(e.processor_state)]
@@ -144,9 +205,63 @@ def run_sim_obj(proc, hwprog):
         return [Sym("Crash"), Sym(type(e).__name__)]
 
 
+def alias_desc(desc):
+    """Sharing INSIDE the argument, as YAML anchors / merge keys produce it: lists with equal contents become one
+    list object (a unit's capabilities and memoryAccess, the capability lists of different units, equal
+    connections).  Applied in place to every second description (chosen by its size); a loader that works on
+    its argument or on a deep copy of it in place is then seen pruning one unit through another."""
+    try:
+        units = desc.get("units", [])
+        if (len(units) + len(desc.get("dataPath", []))) % 2:
+            return desc
+        seen = {}
+        for u in units:
+            for k in ("capabilities", "memoryAccess"):
+                v = u.get(k)
+                if isinstance(v, list) and all(isinstance(x, str) for x in v):
+                    u[k] = seen.setdefault(tuple(v), v)
+        dp = desc.get("dataPath")
+        if isinstance(dp, list):
+            for i, e in enumerate(dp):
+                if isinstance(e, list) and all(isinstance(x, str) for x in e):
+                    dp[i] = seen.setdefault(("edge",) + tuple(e), e)
+    except Exception:  # noqa: BLE001
+        pass
+    return desc
+
+
 def load_desc(desc):
     """returns ('ok', ProcessorDesc) or ('err', (cls, fields, msg))"""
     pu = M("processor_utils")
+    alias_desc(desc)
+    # `units` and `dataPath` are typed Iterable: lists, tuples and one-shot iterables in turn; and one call in three
+    # runs with the root logger at INFO, as the command-line driver configures it (handlers silenced)
+    info = False
+    try:
+        us, dp = desc["units"], desc["dataPath"]
+        if isinstance(us, list) and isinstance(dp, list):
+            k = len(us) + 3 * len(dp)
+            forms = ["list", "list", "tuple", "generator", "map"]
+            desc = dict(desc, units=shaped(us, forms[k % 5]), dataPath=shaped(dp, forms[(k // 5) % 5]))
+            info = k % 3 == 0
+    except Exception:  # noqa: BLE001
+        pass
+    if info:
+        root = logging.getLogger()
+        old, old_handlers = root.level, root.handlers[:]
+        root.handlers[:] = [logging.NullHandler()]
+        root.setLevel(logging.INFO)
+        logging.disable(logging.NOTSET)
+    try:
+        return _load_desc(pu, desc)
+    finally:
+        if info:
+            root.setLevel(old)
+            root.handlers[:] = old_handlers
+            logging.disable(logging.CRITICAL)
+
+
+def _load_desc(pu, desc):
     try:
         return "ok", with_timeout(pu.load_proc_desc, desc)
     except CaseTimeout:
@@ -264,6 +379,8 @@ def shaped(seq, form):
         return tuple(seq)
     if form == "generator":
         return (x for x in seq)
+    if form == "map":
+        return map(lambda x: x, seq)
     if form == "file":
         return io.StringIO("".join(x if x.endswith("\n") else x + "\n" for x in seq))
     return seq
@@ -272,7 +389,8 @@ def shaped(seq, form):
 def run_parse(lines, form="list"):
     pu = M("program_utils")
     try:
-        prog = with_timeout(pu.read_program, shaped(lines, form))
+        with chatty_logging(len(lines)):
+            prog = with_timeout(pu.read_program, shaped(lines, form))
         return [Sym("ok"), [[list(p.sources), p.destination, p.name, int(p.line)] for p in prog]]
     except pu.CodeError as e:
         return [Sym("err"), [Sym("CodeError"), int(e.line), e.instr, str(e)]]
@@ -313,15 +431,17 @@ def run_isa(spec, caps, prog, form="list", twin=None):
         ab = frozenset(ab) if form == "frozenset" else shaped(ab, "generator" if form == "generator" else "list")
         if form == "frozenset":
             _KEEP.append((ab, None))
-        isa = pu.load_isa(table, ab)
+        with chatty_logging(len(pairs) + len(caps)):
+            isa = pu.load_isa(table, ab)
         r1 = [Sym("ok"), [[k, v] for k, v in isa.items()]]
     except Exception as e:  # noqa: BLE001
         cls, f, msg = exc_info(e)
         fields = [f[k] for k in ("old_element", "new_element", "element") if k in f]
         return [[Sym("err"), [Sym(cls)] + fields, msg], Sym("none")]
     try:
-        hw = pgu.compile_program(shaped([pd.ProgInstruction(list(s), d, n, l) for s, d, n, l in prog],
-                                        form if form in ("tuple", "generator") else "list"), isa)
+        with chatty_logging(len(prog) + 1):
+            hw = pgu.compile_program(shaped([pd.ProgInstruction(list(s), d, n, l) for s, d, n, l in prog],
+                                            form if form in ("tuple", "generator") else "list"), isa)
         r2 = [Sym("ok"), enc_hwprog(hw)]
     except Exception as e:  # noqa: BLE001
         cls, f, msg = exc_info(e)
